@@ -16,7 +16,8 @@ Scalars ==
                                     V("f", Inf), V("f", 0 - Inf), V("d", Inf) }       \* infinities (the driver maps +-Inf to the IEEE values): inf - inf is not a number
   ELSE IF Pool = "runs" THEN { V("i", 0), V("i", 1), V("i", 2), V("i", 3), V("i", 4), V("i", 5), V("i", 6), V("f", 0), V("f", 1), V("f", 2), V("f", 3), V("f", 4), V("f", 5), V("c", 97), V("c", 98), V("c", 99), V("c", 100), V("c", 101) }
   ELSE IF Pool = "texts" THEN { V("s", <<>>), V("s", <<97>>), V("s", <<97, 98>>), V("S", <<97>>), V("b", <<>>), V("b", <<1, 2>>), V("b", <<1, 2, 0>>),
-                                V("b", <<1, 3>>), V("m", <<1, 2, 3, 4>>), V("m", <<1, 2, 3, 5>>), V("t", 1), V("t", 0), V("t", 5), V("r", 7) }
+                                V("b", <<1, 3>>), V("m", <<1, 2, 3, 4>>), V("m", <<1, 2, 3, 5>>), V("t", 1), V("t", 0), V("t", 5), V("r", 7),
+                                V("t", 805306368), V("t", 1073741824) }       \* time tags 0x6000... and 0x8000... (the driver shifts by 33 bits): more than 2^63 apart from the small ones
   ELSE { V("T", 0), V("F", 0), V("N", 0), V("I", 0), V("i", 1), V("s", <<97>>),
          Arr("i", <<>>), Arr("i", <<V("i", 1)>>), Arr("i", <<V("i", 1), V("i", 2)>>), Arr("s", <<>>), Arr("s", <<V("s", <<97>>)>>),
          Arr("T", <<>>), Arr("T", <<V("T", 0)>>), Arr("T", <<V("T", 0), V("F", 0)>>), Arr("F", <<V("F", 0)>>), Arr("S", <<>>) }
